@@ -1,1 +1,599 @@
-//! Helpers of group 'fault' (see GUIDE.md).
+//! Helpers of group 'fault' (C04, C05, C06, C07): file-backed servers in scratch directories,
+//! template databases that are copied per case, restart / backup / restore drivers and an
+//! independent raw dump of the SQLite file (own rusqlite connection, no kanidm code involved).
+use crate::srv;
+use kanidm_proto::backup::BackupCompression;
+use kanidm_proto::internal::FsType;
+use kanidmd_lib::be::{Backend, BackendConfig};
+use kanidmd_lib::prelude::*;
+use kanidmd_lib::schema::Schema;
+use std::collections::BTreeMap;
+use std::path::{Path, PathBuf};
+use std::sync::atomic::{AtomicU64, Ordering};
+use std::time::Duration;
+
+// ---------------------------------------------------------------------------------------------
+// scratch directories: <verif root>/target/scratch/<pid>-<n>/ , removed on drop
+
+static SCRATCH_N: AtomicU64 = AtomicU64::new(0);
+
+pub fn verif_root() -> PathBuf {
+    PathBuf::from(std::env::var("VERIF_ROOT").unwrap_or_else(|_| "/verif".into()))
+}
+
+pub struct Scratch {
+    pub dir: PathBuf,
+}
+
+impl Scratch {
+    pub fn new() -> Scratch {
+        let n = SCRATCH_N.fetch_add(1, Ordering::SeqCst);
+        let dir = verif_root()
+            .join("target")
+            .join("scratch")
+            .join(format!("{}-{}", std::process::id(), n));
+        let _ = std::fs::remove_dir_all(&dir);
+        std::fs::create_dir_all(&dir).expect("scratch dir");
+        Scratch { dir }
+    }
+    pub fn file(&self, name: &str) -> PathBuf {
+        self.dir.join(name)
+    }
+}
+
+impl Default for Scratch {
+    fn default() -> Self {
+        Self::new()
+    }
+}
+
+impl Drop for Scratch {
+    fn drop(&mut self) {
+        let _ = std::fs::remove_dir_all(&self.dir);
+    }
+}
+
+/// Remove scratch directories left behind by processes that no longer exist (crashed runs).
+pub fn sweep_stale_scratch() {
+    let base = verif_root().join("target").join("scratch");
+    let Ok(rd) = std::fs::read_dir(&base) else {
+        return;
+    };
+    for e in rd.flatten() {
+        let name = e.file_name().to_string_lossy().to_string();
+        let pid = name.split('-').next().and_then(|p| p.parse::<u32>().ok());
+        if let Some(pid) = pid {
+            if pid != std::process::id() && !Path::new(&format!("/proc/{pid}")).exists() {
+                let _ = std::fs::remove_dir_all(e.path());
+            }
+        }
+    }
+}
+
+/// Copy a (closed) SQLite database: main file plus a WAL file should one exist.
+pub fn copy_db(src: &Path, dst: &Path) {
+    let _ = std::fs::remove_file(dst);
+    let _ = std::fs::remove_file(with_suffix(dst, "-wal"));
+    let _ = std::fs::remove_file(with_suffix(dst, "-shm"));
+    std::fs::copy(src, dst).expect("copy db");
+    let wal = with_suffix(src, "-wal");
+    if wal.exists() {
+        std::fs::copy(&wal, with_suffix(dst, "-wal")).expect("copy wal");
+    }
+}
+
+pub fn with_suffix(p: &Path, suffix: &str) -> PathBuf {
+    let mut s = p.as_os_str().to_os_string();
+    s.push(suffix);
+    PathBuf::from(s)
+}
+
+// ---------------------------------------------------------------------------------------------
+// server factory split in two so that a restore can happen between backend and query server
+
+pub fn new_be(path: Option<&Path>, pool: u32) -> Result<(Backend, Schema), OperationError> {
+    let schema_outer = Schema::new()?;
+    let idxmeta = {
+        let schema_txn = schema_outer.write();
+        schema_txn.reload_idxmeta()
+    };
+    let pool = if path.is_none() { 1 } else { pool };
+    let cfg = BackendConfig::new(path, pool, FsType::Generic, Some(2048));
+    let be = Backend::new(cfg, idxmeta, false)?;
+    Ok((be, schema_outer))
+}
+
+/// Open (or create) a server on `path` the way the daemon does at start-up: new backend, new
+/// query server seeded with `curtime`, then `initialise_helper(curtime, target level)`.
+pub async fn open_qs(path: Option<&Path>, pool: u32, curtime: Duration) -> Result<QueryServer, OperationError> {
+    open_qs_level(path, pool, curtime, DOMAIN_TGT_LEVEL).await
+}
+
+pub async fn open_qs_level(path: Option<&Path>, pool: u32, curtime: Duration, level: u32) -> Result<QueryServer, OperationError> {
+    let (be, schema) = new_be(path, pool)?;
+    let qs = QueryServer::new(be, schema, srv::DOMAIN.to_string(), curtime)?;
+    qs.initialise_helper(curtime, level).await?;
+    Ok(qs)
+}
+
+/// Restore `backup` (uncompressed backup bytes) into the database at `path` (None = a new in-memory
+/// database) and start a server on it at `curtime`, as `restore_server_core` does: backend restore,
+/// backend reindex, query server start, full reindex.
+pub async fn restore_qs(path: Option<&Path>, pool: u32, backup: &[u8], curtime: Duration) -> Result<QueryServer, OperationError> {
+    let (be, schema) = new_be(path, pool)?;
+    {
+        let mut w = be.write()?;
+        w.restore(backup, BackupCompression::NoCompression)?;
+        w.commit()?;
+    }
+    {
+        let mut w = be.write()?;
+        w.reindex(false)?;
+        w.commit()?;
+    }
+    let qs = QueryServer::new(be, schema, srv::DOMAIN.to_string(), curtime)?;
+    qs.initialise_helper(curtime, DOMAIN_TGT_LEVEL).await?;
+    {
+        let mut w = qs.write(curtime).await?;
+        w.reindex(false)?;
+        w.commit()?;
+    }
+    Ok(qs)
+}
+
+/// A template database: built once per worker, closed (so SQLite checkpoints and removes the WAL),
+/// then copied per case. Every case therefore starts from the byte-identical initialised server.
+pub struct Template {
+    pub scratch: Scratch,
+    pub file: PathBuf,
+}
+
+impl Template {
+    /// `setup` runs in one write transaction at T0+1 after initialisation.
+    pub fn build(
+        rt: &tokio::runtime::Runtime,
+        setup: impl FnOnce(&mut QueryServerWriteTransaction<'_>) -> Result<(), OperationError>,
+    ) -> Template {
+        Self::build_level(rt, DOMAIN_TGT_LEVEL, setup)
+    }
+
+    pub fn build_level(
+        rt: &tokio::runtime::Runtime,
+        level: u32,
+        setup: impl FnOnce(&mut QueryServerWriteTransaction<'_>) -> Result<(), OperationError>,
+    ) -> Template {
+        let scratch = Scratch::new();
+        let file = scratch.file("template.db");
+        rt.block_on(async {
+            let qs = open_qs_level(Some(&file), 2, srv::t0(), level).await.expect("template init");
+            let mut w = qs.write(srv::ct(1)).await.expect("template write");
+            setup(&mut w).expect("template setup");
+            w.commit().expect("template commit");
+            drop(qs);
+        });
+        Template { scratch, file }
+    }
+
+    pub fn instantiate(&self, dst: &Path) {
+        copy_db(&self.file, dst);
+    }
+}
+
+// ---------------------------------------------------------------------------------------------
+// independent raw dump of a database file
+
+/// table name -> sorted rows, every column rendered as text.
+pub type RawDb = BTreeMap<String, Vec<String>>;
+
+pub fn raw_dump(path: &Path) -> Result<RawDb, String> {
+    use rusqlite::types::ValueRef;
+    let conn = rusqlite::Connection::open_with_flags(
+        path,
+        rusqlite::OpenFlags::SQLITE_OPEN_READ_WRITE | rusqlite::OpenFlags::SQLITE_OPEN_NO_MUTEX,
+    )
+    .map_err(|e| format!("open {}: {e}", path.display()))?;
+    let tables: Vec<String> = {
+        let mut st = conn
+            .prepare("SELECT name FROM sqlite_master WHERE type='table' ORDER BY name")
+            .map_err(|e| e.to_string())?;
+        let rows = st.query_map([], |r| r.get::<_, String>(0)).map_err(|e| e.to_string())?;
+        rows.collect::<Result<Vec<_>, _>>().map_err(|e| e.to_string())?
+    };
+    let mut out = RawDb::new();
+    for t in tables {
+        let mut st = conn.prepare(&format!("SELECT * FROM \"{t}\"")).map_err(|e| e.to_string())?;
+        let ncol = st.column_count();
+        let mut rows = st.query([]).map_err(|e| e.to_string())?;
+        let mut rendered = Vec::new();
+        while let Some(r) = rows.next().map_err(|e| e.to_string())? {
+            let mut cols = Vec::with_capacity(ncol);
+            for i in 0..ncol {
+                let c = match r.get_ref(i).map_err(|e| e.to_string())? {
+                    ValueRef::Null => "NULL".to_string(),
+                    ValueRef::Integer(v) => v.to_string(),
+                    ValueRef::Real(v) => v.to_string(),
+                    ValueRef::Text(b) | ValueRef::Blob(b) => String::from_utf8_lossy(b).to_string(),
+                };
+                cols.push(c);
+            }
+            rendered.push(cols.join(" | "));
+        }
+        rendered.sort();
+        out.insert(t, rendered);
+    }
+    Ok(out)
+}
+
+/// Human readable difference of two raw dumps (first few differing rows per table).
+pub fn raw_diff(a: &RawDb, b: &RawDb) -> Vec<String> {
+    let mut out = Vec::new();
+    let keys: std::collections::BTreeSet<&String> = a.keys().chain(b.keys()).collect();
+    for k in keys {
+        match (a.get(k), b.get(k)) {
+            (Some(x), Some(y)) => {
+                if x != y {
+                    let xs: std::collections::BTreeSet<&String> = x.iter().collect();
+                    let ys: std::collections::BTreeSet<&String> = y.iter().collect();
+                    let only_l: Vec<String> = xs.difference(&ys).take(2).map(|s| clip(s, 160)).collect();
+                    let only_r: Vec<String> = ys.difference(&xs).take(2).map(|s| clip(s, 160)).collect();
+                    out.push(format!("table {k}: {} vs {} rows; only left {only_l:?}; only right {only_r:?}", x.len(), y.len()));
+                }
+            }
+            (Some(_), None) => out.push(format!("table {k}: only in left")),
+            (None, Some(_)) => out.push(format!("table {k}: only in right")),
+            (None, None) => {}
+        }
+    }
+    out
+}
+
+pub fn clip(s: &str, n: usize) -> String {
+    if s.len() <= n {
+        s.to_string()
+    } else {
+        let mut cut = n;
+        while !s.is_char_boundary(cut) {
+            cut -= 1;
+        }
+        format!("{}…", &s[..cut])
+    }
+}
+
+// ---------------------------------------------------------------------------------------------
+// C04 / C05: transaction templates, a populated template database, and the snapshot of everything
+// readers use (stored entries + server-wide in-memory settings)
+
+use crate::dump::{self, Dump};
+use crate::ops::{self, Op, Ref};
+use crate::pop::{self, Kind};
+use kanidmd_lib::idm::server::{IdmServer, IdmServerAudit, IdmServerDelayed};
+use kanidmd_lib::modify::{Modify, ModifyList};
+use kanidmd_lib::value::{PartialValue, Value};
+use kanidmd_lib::verif_hooks::{fault as hfault, ident};
+use serde::{Deserialize, Serialize};
+use std::collections::BTreeSet;
+
+pub struct Srv {
+    pub qs: QueryServer,
+    pub idms: IdmServer,
+    _delayed: IdmServerDelayed,
+    _audit: IdmServerAudit,
+}
+
+pub async fn open_srv(path: Option<&Path>, pool: u32, curtime: Duration) -> Result<Srv, OperationError> {
+    open_srv_level(path, pool, curtime, DOMAIN_TGT_LEVEL).await
+}
+
+pub async fn open_srv_level(path: Option<&Path>, pool: u32, curtime: Duration, level: u32) -> Result<Srv, OperationError> {
+    let qs = open_qs_level(path, pool, curtime, level).await?;
+    let origin = Url::parse("https://idm.example.com").expect("url");
+    let (idms, d, a) = IdmServer::new(qs.clone(), &origin, true, curtime).await?;
+    Ok(Srv {
+        qs,
+        idms,
+        _delayed: d,
+        _audit: a,
+    })
+}
+
+pub fn acp_uuid(n: u8) -> Uuid {
+    pop::uuid_of(Kind::Other, 0x100 + n as u32)
+}
+pub fn schema_attr_uuid(n: u8) -> Uuid {
+    pop::uuid_of(Kind::Other, 0x200 + n as u32)
+}
+pub fn schema_class_uuid(n: u8) -> Uuid {
+    pop::uuid_of(Kind::Other, 0x300 + n as u32)
+}
+pub fn schema_attr_name(n: u8) -> String {
+    format!("vfattr{n}")
+}
+pub fn schema_class_name(n: u8) -> String {
+    format!("vfclass{n}")
+}
+pub const ACP_ATTRS: [&str; 4] = ["description", "mail", "member", "gidnumber"];
+/// name-table indices of the OAuth2 clients o0 (in the template) and o1 (created by templates)
+pub const OAUTH_CLIENT_NAMES: [u8; 2] = [3, 7];
+pub const DISPLAY_NAMES: [&str; 3] = ["Example Org", "Vf Display", "Another Name"];
+
+/// Operations of a transaction template. Entry-level operations reuse the shared op language.
+#[derive(Debug, Clone, PartialEq, Eq, Hash, Serialize, Deserialize)]
+pub enum TOp {
+    E(Op),
+    /// create schema attribute vfattr{n}
+    SchemaAttr { n: u8, indexed: bool },
+    /// create schema class vfclass{n} allowing vfattr{n} (must exist) or description
+    SchemaClass { n: u8, with_attr: bool },
+    /// create an access control profile letting members of G0 search `attr` on groups
+    AcpCreate { n: u8, attr: u8 },
+    /// add a searchable attribute to the profile that exists in the template (acp 0)
+    AcpAddAttr { attr: u8 },
+    /// delete the template profile
+    AcpDelete,
+    /// OAuth2 client o{i}: toggle PKCE requirement (visible in the discovery document)
+    OAuth2Pkce { i: u8, disable: bool },
+    DomainDisplay { v: u8 },
+    /// rotate the signing key of OAuth2 client o{i}
+    KeyRotate { i: u8 },
+    /// raise the domain functional level to the target level (only meaningful on the template
+    /// database that was created at the previous level): the transaction that changes the schema
+    DomainRaise,
+}
+
+fn acp_entry(n: u8, attrs: &[&str]) -> pop::NewEntry {
+    let mut e: pop::NewEntry = kanidmd_lib::entry::Entry::new();
+    e.add_ava(Attribute::Class, EntryClass::Object.to_value());
+    e.add_ava(Attribute::Class, EntryClass::AccessControlProfile.to_value());
+    e.add_ava(Attribute::Class, EntryClass::AccessControlSearch.to_value());
+    e.add_ava(Attribute::Class, EntryClass::AccessControlReceiverGroup.to_value());
+    e.add_ava(Attribute::Class, EntryClass::AccessControlTargetScope.to_value());
+    e.add_ava(Attribute::Name, Value::new_iname(&format!("vfacp{n}")));
+    e.add_ava(Attribute::Uuid, Value::Uuid(acp_uuid(n)));
+    e.add_ava(Attribute::AcpReceiverGroup, Value::Refer(Ref::G(0).uuid()));
+    e.add_ava(
+        Attribute::AcpTargetScope,
+        Value::new_json_filter_s("{\"eq\":[\"class\",\"group\"]}").expect("filter"),
+    );
+    for a in attrs {
+        e.add_ava(Attribute::AcpSearchAttr, Value::new_iutf8(a));
+    }
+    e
+}
+
+pub fn apply_top(w: &mut QueryServerWriteTransaction<'_>, op: &TOp, ct: Duration) -> Result<(), OperationError> {
+    match op {
+        TOp::E(op) => ops::apply_in_txn(w, op),
+        TOp::SchemaAttr { n, indexed } => {
+            let mut e: pop::NewEntry = kanidmd_lib::entry::Entry::new();
+            e.add_ava(Attribute::Class, EntryClass::Object.to_value());
+            e.add_ava(Attribute::Class, EntryClass::AttributeType.to_value());
+            e.add_ava(Attribute::Uuid, Value::Uuid(schema_attr_uuid(*n)));
+            e.add_ava(Attribute::AttributeName, Value::new_iutf8(&schema_attr_name(*n)));
+            e.add_ava(Attribute::Description, Value::new_utf8s("verification attribute"));
+            e.add_ava(Attribute::MultiValue, Value::new_bool(true));
+            e.add_ava(Attribute::Unique, Value::new_bool(false));
+            e.add_ava(Attribute::Indexed, Value::new_bool(*indexed));
+            e.add_ava(Attribute::Syntax, Value::new_syntaxs("UTF8STRING_INSENSITIVE").expect("syntax"));
+            w.internal_create(vec![e])
+        }
+        TOp::SchemaClass { n, with_attr } => {
+            let mut e: pop::NewEntry = kanidmd_lib::entry::Entry::new();
+            e.add_ava(Attribute::Class, EntryClass::Object.to_value());
+            e.add_ava(Attribute::Class, EntryClass::ClassType.to_value());
+            e.add_ava(Attribute::Uuid, Value::Uuid(schema_class_uuid(*n)));
+            e.add_ava(Attribute::ClassName, Value::new_iutf8(&schema_class_name(*n)));
+            e.add_ava(Attribute::Description, Value::new_utf8s("verification class"));
+            let may = if *with_attr { schema_attr_name(*n) } else { "description".to_string() };
+            e.add_ava(Attribute::May, Value::new_iutf8(&may));
+            w.internal_create(vec![e])
+        }
+        TOp::AcpCreate { n, attr } => w.internal_create(vec![acp_entry(1 + *n % 3, &["name", ACP_ATTRS[*attr as usize % ACP_ATTRS.len()]])]),
+        TOp::AcpAddAttr { attr } => w.internal_modify_uuid(
+            acp_uuid(0),
+            &ModifyList::new_list(vec![Modify::Present(
+                Attribute::AcpSearchAttr,
+                Value::new_iutf8(ACP_ATTRS[*attr as usize % ACP_ATTRS.len()]),
+            )]),
+        ),
+        TOp::AcpDelete => w.internal_delete_uuid(acp_uuid(0)),
+        TOp::OAuth2Pkce { i, disable } => w.internal_modify_uuid(
+            Ref::O(*i).uuid(),
+            &ModifyList::new_list(vec![
+                Modify::Purged(Attribute::OAuth2AllowInsecureClientDisablePkce),
+                Modify::Present(Attribute::OAuth2AllowInsecureClientDisablePkce, Value::new_bool(*disable)),
+            ]),
+        ),
+        TOp::DomainDisplay { v } => w.set_domain_display_name(DISPLAY_NAMES[*v as usize % DISPLAY_NAMES.len()]),
+        TOp::DomainRaise => w.domain_raise(DOMAIN_TGT_LEVEL),
+        TOp::KeyRotate { i } => w.internal_modify_uuid(
+            Ref::O(*i).uuid(),
+            &ModifyList::new_list(vec![Modify::Present(
+                Attribute::KeyActionRotate,
+                Value::new_datetime_epoch(ct + Duration::from_secs(300)),
+            )]),
+        ),
+    }
+}
+
+/// Population of the C04/C05 template database.
+pub fn populate(w: &mut QueryServerWriteTransaction<'_>) -> Result<(), OperationError> {
+    let pre = [
+        Op::CreatePerson { i: 0, name: 0 },
+        Op::CreatePerson { i: 1, name: 1 },
+        Op::CreatePerson { i: 2, name: 2 },
+        Op::CreateGroup { i: 0, name: 4, members: vec![Ref::P(0)] },
+        Op::CreateGroup { i: 1, name: 5, members: vec![Ref::P(1), Ref::G(0)] },
+        Op::CreateGroup { i: 2, name: 6, members: vec![] },
+        Op::SetAttr { t: Ref::G(1), attr: ops::AttrK::Description, vals: vec![0] },
+        Op::SetAttr { t: Ref::G(1), attr: ops::AttrK::Mail, vals: vec![0] },
+        Op::CreateOAuth2 { i: 0, name: 3, group: Ref::G(0) },
+    ];
+    for op in &pre {
+        ops::apply_in_txn(w, op)?;
+    }
+    w.internal_create(vec![acp_entry(0, &["name", "class"])])?;
+    Ok(())
+}
+
+/// Everything a reader can observe that the property talks about.
+#[derive(Debug, Clone, PartialEq, Eq)]
+pub struct Settings {
+    /// schema: names of all attributes (with index flag) and classes of the in-memory schema
+    pub schema_attrs: BTreeSet<String>,
+    pub schema_classes: BTreeSet<String>,
+    /// access controls: attributes of G1 that P0 gets back from a search
+    pub access_p0_on_g1: Option<BTreeSet<String>>,
+    pub domain_display: String,
+    /// key material: ES256 key ids loaded for OAuth2 client o0 / o1
+    pub kids: Vec<Option<Vec<String>>>,
+    /// OAuth2 client configuration as the IDM layer serves it (None = unknown client)
+    pub oauth2: Vec<Option<String>>,
+    /// in-memory replication update vector (what a replication supplier would offer)
+    pub ruv: Vec<String>,
+}
+
+#[derive(Debug, Clone, PartialEq, Eq)]
+pub struct Snapshot {
+    pub dump: Dump,
+    pub settings: Settings,
+}
+
+pub async fn snapshot(srv: &Srv) -> Result<Snapshot, OperationError> {
+    let mut pr = srv.idms.proxy_read().await?;
+    let mut oauth2 = Vec::new();
+    for name in OAUTH_CLIENT_NAMES {
+        oauth2.push(pr.oauth2_openid_discovery(ops::NAMES[name as usize]).ok().map(|d| {
+            format!("pkce_methods={:?} scopes={:?}", d.code_challenge_methods_supported, d.scopes_supported)
+        }));
+    }
+    let r = &mut pr.qs_read;
+    let schema_attrs: BTreeSet<String> = kanidmd_lib::schema::SchemaTransaction::get_attributes(r.get_schema())
+        .iter()
+        .map(|(k, v)| format!("{}{}", k.as_str(), if v.indexed { " (indexed)" } else { "" }))
+        .collect();
+    let schema_classes: BTreeSet<String> = kanidmd_lib::schema::SchemaTransaction::get_classes(r.get_schema())
+        .keys()
+        .map(|k| k.to_string())
+        .collect();
+    let g1_name = r
+        .internal_search_uuid(Ref::G(1).uuid())
+        .ok()
+        .and_then(|e| e.get_ava_single_proto_string(Attribute::Name));
+    let access_p0_on_g1 = match (r.internal_search_uuid(Ref::P(0).uuid()), g1_name) {
+        (Ok(p0), Some(g1_name)) => {
+            let idn = ident::user_readwrite(p0);
+            // the profile in the template lets members of G0 search groups by name
+            let f = Filter::new(f_eq(Attribute::Name, PartialValue::new_iname(&g1_name)))
+                .validate(r.get_schema())
+                .map_err(OperationError::SchemaViolation)?;
+            let se = kanidmd_lib::event::SearchEvent::new_impersonate(&idn, f.clone(), f);
+            match r.search_ext(&se) {
+                Ok(res) => Some(
+                    res.iter()
+                        .flat_map(|e| e.get_ava_names().map(|s| s.to_string()).collect::<Vec<_>>())
+                        .collect(),
+                ),
+                Err(_) => None,
+            }
+        }
+        _ => None,
+    };
+    let domain_display = r.get_domain_display_name().to_string();
+    let kids = (0..ops::N_OAUTH).map(|i| hfault::key_object_kids(r, Ref::O(i).uuid())).collect();
+    let mut ruv: Vec<String> = kanidmd_lib::verif_hooks::repl::ruv_cids(r).iter().map(|c| format!("{c:?}")).collect();
+    ruv.sort();
+    let dump = dump::dump_all(r)?;
+    Ok(Snapshot {
+        dump,
+        settings: Settings {
+            schema_attrs,
+            schema_classes,
+            access_p0_on_g1,
+            domain_display,
+            kids,
+            oauth2,
+            ruv,
+        },
+    })
+}
+
+/// Kinds of server-wide state in which two snapshots differ (empty = identical).
+pub fn settings_diff(a: &Settings, b: &Settings) -> Vec<(&'static str, String)> {
+    let mut out = Vec::new();
+    if a.schema_attrs != b.schema_attrs || a.schema_classes != b.schema_classes {
+        let d = |x: &BTreeSet<String>, y: &BTreeSet<String>| x.symmetric_difference(y).take(6).cloned().collect::<Vec<_>>();
+        out.push((
+            "schema",
+            format!("attributes differing {:?}, classes differing {:?}", d(&a.schema_attrs, &b.schema_attrs), d(&a.schema_classes, &b.schema_classes)),
+        ));
+    }
+    if a.access_p0_on_g1 != b.access_p0_on_g1 {
+        out.push(("access controls", format!("{:?} vs {:?}", a.access_p0_on_g1, b.access_p0_on_g1)));
+    }
+    if a.domain_display != b.domain_display {
+        out.push(("domain settings", format!("{:?} vs {:?}", a.domain_display, b.domain_display)));
+    }
+    if a.kids != b.kids {
+        out.push(("key material", format!("{:?} vs {:?}", a.kids, b.kids)));
+    }
+    if a.ruv != b.ruv {
+        let x: BTreeSet<&String> = a.ruv.iter().collect();
+        let y: BTreeSet<&String> = b.ruv.iter().collect();
+        out.push(("replication update vector", format!("differing {:?}", x.symmetric_difference(&y).take(4).collect::<Vec<_>>())));
+    }
+    if a.oauth2 != b.oauth2 {
+        out.push(("oauth2 client configuration", format!("{:?} vs {:?}", a.oauth2, b.oauth2)));
+    }
+    out
+}
+
+// ---------------------------------------------------------------------------------------------
+// C05: template with history (recycled -> tombstoned entries in the past)
+
+pub type SetupFn = Box<dyn FnOnce(&mut QueryServerWriteTransaction<'_>) -> Result<(), OperationError>>;
+
+impl Template {
+    /// Like `build`, with several setup transactions at the given offsets (seconds after T0).
+    pub fn build_steps(rt: &tokio::runtime::Runtime, steps: Vec<(u64, SetupFn)>) -> Template {
+        let scratch = Scratch::new();
+        let file = scratch.file("template.db");
+        rt.block_on(async {
+            let qs = open_qs(Some(&file), 2, srv::t0()).await.expect("template init");
+            for (off, f) in steps {
+                let mut w = qs.write(srv::ct(off)).await.expect("template write");
+                f(&mut w).expect("template setup");
+                w.commit().expect("template commit");
+            }
+            drop(qs);
+        });
+        Template { scratch, file }
+    }
+}
+
+pub const DAY: u64 = 86_400;
+
+/// Population of `populate` plus two persons that are deleted, then turned into tombstones 8 days
+/// later, so that a transaction 16+ days after T0 can purge them.
+pub fn c05_template(rt: &tokio::runtime::Runtime) -> Template {
+    Template::build_steps(
+        rt,
+        vec![
+            (
+                1,
+                Box::new(|w| {
+                    populate(w)?;
+                    ops::apply_in_txn(w, &Op::CreatePerson { i: 4, name: 12 })?;
+                    ops::apply_in_txn(w, &Op::CreatePerson { i: 5, name: 13 })
+                }),
+            ),
+            (
+                2,
+                Box::new(|w| {
+                    ops::apply_in_txn(w, &Op::Delete { t: Ref::P(4) })?;
+                    ops::apply_in_txn(w, &Op::Delete { t: Ref::P(5) })
+                }),
+            ),
+            (8 * DAY, Box::new(|w| ops::apply_in_txn(w, &Op::PurgeRecycled))),
+        ],
+    )
+}
